@@ -165,7 +165,7 @@ func (in *Interp) zero(t types.Type) Value {
 			return Float{C: true}
 		case u.Kind() == types.UnsafePointer:
 			return (*Value)(nil)
-		case u.Kind() == types.UntypedNil:
+		case u.Kind() == types.UntypedNil, u.Kind() == types.Invalid:
 			return nil
 		}
 		panic(abort("zero of basic " + u.String()))
